@@ -265,6 +265,40 @@ class Builder:
                 if t["m"] == t["n"]:
                     return ift.MatrixProductOperator(self.sp(t["n"]), m) @ a
                 return dense_op(ift, self.sp(t["n"]), self.sp(t["m"]), m) @ a
+        # einsum.py / jax_operator.py spellings of modelled nodes
+        if k == "lin" and "rows_im" not in t and self.flip(t, "lineinsum"):
+            m = np.array(t["rows"], dtype=np.float64).reshape(t["m"], t["n"])
+            dm = ift.DomainTuple.make((self.sp(t["m"])[0], self.sp(t["n"])[0]))
+            mf = ift.MultiField.from_dict({"mat": ift.makeField(dm, m)})
+            L = ift.LinearEinsum(self.sp(t["n"]), mf, "ij,j->i", key_order=("mat",))
+            if t["a"]["t"] == "ptw" and self.flip(t, "ptwpre") and "p" in t["a"]:
+                return L.ptw_pre(t["a"]["f"], *t["a"]["p"]) @ self.build(t["a"]["a"])      # Operator.ptw_pre
+            return L @ self.build(t["a"])
+        if k == "mulc" and "d_im" not in t and self.flip(t, "staticeinsum"):
+            n = len(t["d"])
+            mle = ift.MultiLinearEinsum(ift.MultiDomain.make({"e0": self.sp(n)}), "i,i->i", key_order=("st", "e0"),
+                                        static_mf=ift.MultiField.from_dict({"st": self.field(t["d"])}))
+            return mle @ self.build(t["a"]).ducktape_left("e0")
+        if (k == "bil" and t["ss"] == "i,i->i" and t["a"]["t"] == "bil" and t["a"]["ss"] == "i,i->i"
+                and self.flip(t, "einsum3")):
+            n = t["shapes"][0][0]
+            dn = ift.DomainTuple.make(ift.UnstructuredDomain(n))
+            parts = [t["a"]["a"], t["a"]["b"], t["b"]]
+            G = None
+            for i, sub in enumerate(parts):
+                o = self.build(sub).ducktape_left(dn).ducktape_left(f"e{i}")
+                G = o if G is None else G + o
+            mle = ift.MultiLinearEinsum(ift.MultiDomain.make({f"e{i}": dn for i in range(3)}), "i,i,i->i",
+                                        key_order=("e0", "e1", "e2"))
+            return (mle @ G).ducktape_left(self.sp(n))
+        if (k == "ptw" and t["f"] in ("exp", "sin", "cos", "tanh", "sinh", "cosh", "arctan") and self.flip(t, "jax")
+                and self.flip(t, "jax2") and self.flip(t, "jax3")):
+            a = self.build(t["a"])
+            if not hasattr(a.target, "keys"):
+                import jax
+                jax.config.update("jax_enable_x64", True)
+                import jax.numpy as jnp
+                return ift.JaxOperator(a.target, a.target, getattr(jnp, t["f"])) @ a
         if k == "scale" and t["c"] == -1.0 and self.flip(t, "neg"):
             return -self.build(t["a"])
         if k == "scale" and self.flip(t, "nummul"):
